@@ -58,6 +58,8 @@ VARIANTS = {
 HARNESSES = {
     'handoff': dict(src='harness/handoff.cpp', kind='mc'),
     'atomic_diff': dict(src='harness/atomic_diff.cpp', kind='seq'),
+    'pipeline': dict(src='harness/pipeline.cpp', kind='seq', extra=['engine/seq_support.cpp']),
+    'alloc': dict(src='harness/alloc.cpp', kind='seq', extra=['engine/seq_support.cpp']),
     'shared': dict(src='harness/shared.cpp', kind='mc'),
     'when_all': dict(src='harness/when_all.cpp', kind='mc'),
     'strand': dict(src='harness/strand.cpp', kind='mc'),
@@ -136,6 +138,7 @@ def write_ninja(targets):
              'rule link', '  command = $cxx $in $ldflags -o $out', '  description = LINK $out', '']
     bins = []
     done_variants = set()
+    done_extra = set()
     for (hname, vname) in targets:
         v = VARIANTS[vname]
         h = HARNESSES[hname]
@@ -166,7 +169,15 @@ def write_ninja(targets):
         lines += ['build %s: cxx %s' % (ninja_escape(hobj), ninja_escape(os.path.join(VERIF, h['src']))),
                   '  flags = ' + ' '.join(flags(vname, v, True) + ['-I' + VERIF]), '']
         binp = os.path.join(vdir, 'bin', hname)
-        inputs = [hobj] + (VARIANTS[vname]['_eng'] if h['kind'] == 'mc' else []) + VARIANTS[vname]['_objs']
+        extra_objs = []
+        for src in h.get('extra', []):
+            obj = os.path.join(vdir, 'extra', os.path.basename(src) + '.o')
+            if obj not in done_extra:
+                done_extra.add(obj)
+                lines += ['build %s: cxx %s' % (ninja_escape(obj), ninja_escape(os.path.join(VERIF, src))),
+                          '  flags = ' + ' '.join(flags(vname, v, False) + ['-I' + VERIF, '-O2']), '']
+            extra_objs.append(obj)
+        inputs = [hobj] + extra_objs + (VARIANTS[vname]['_eng'] if h['kind'] == 'mc' else []) + VARIANTS[vname]['_objs']
         lines += ['build %s: link %s' % (ninja_escape(binp), ' '.join(ninja_escape(x) for x in inputs)),
                   '  ldflags = ' + ' '.join(ldflags(vname, v) + h.get('ld', [])), '']
         bins.append(binp)
@@ -224,6 +235,76 @@ CHECKS = {
             'sequentially consistent executions only',
         ],
         technique='stateless model checking: exhaustive DFS over all schedules of the real code under a controlled fiber scheduler',
+    ),
+    'C02': dict(
+        title='A pipeline computes what its steps say: routing, recovery, unwrapping',
+        level_text='every pipeline program of length <= 2 over the full step alphabet (3 attach modes x 4 callback argument '
+                   'classes x 9 return classes with their sub-variants (value / error / exception Result, ready / later inner Future, '
+                   'SharedFuture, FutureOn via Run, Task built by MakeTask / Schedule / LazyContract) x returning or throwing x '
+                   'executor) x 13 eager and 5 lazy sources x 2 value types x 5 finishes / 6 start methods (thorough: also length 3 '
+                   'over a reduced alphabet and every rejection index of the refusing executor), built from real library calls and '
+                   'compared with a reference interpreter: final Result, ordered list of invoked callbacks and the argument each saw',
+        budget=dict(quick=200, thorough=1800),
+        runs=[seq('pipeline', 'seq17', quick=dict(shards=16, args=['--mode', 'eager', '--prop', 'C02']),
+                  thorough=dict(shards=16, args=['--mode', 'eager', '--prop', 'C02'])),
+              seq('pipeline', 'seq17', quick=dict(shards=16, args=['--mode', 'lazy', '--prop', 'C02']),
+                  thorough=dict(shards=16, args=['--mode', 'lazy', '--prop', 'C02'])),
+              mc('handoff', 'mc-asan', quick=dict(P=99, cells='cons=(ThenInline|ThenInlineV|ThenE|ConnectThen)'),
+                 thorough=dict(P=99))],
+        assumptions=['the C++17 / FAULT=OFF instantiation the baseline ships (plus ASan); single-threaded: executors are '
+                     'instrumented inline executors, so "fulfilled concurrently with building" is covered by the explorer harness handoff',
+                     'pipeline length bound as stated; coroutine sources are covered in C13',
+                     'the reference interpreter (harness/pipeline.cpp Reference(), DESIGN.md appendix C) is the specification'],
+        technique='bounded exhaustive enumeration of operation sequences against a reference model (plus exhaustive schedule enumeration for the concurrent hand-off)',
+    ),
+    'C05': dict(
+        title='Executors: every job is Called xor Dropped, and steps run where they were told',
+        level_text='(a) every pipeline program as in C02 with per-step executor choice among two instrumented executors and every '
+                   'index k at which the second one starts refusing work: submissions per executor, Call xor Drop per job, the executor '
+                   'context each Then(e)/Then()/Detach(e) body runs in, StopError routing after a refusal; (b) every schedule within '
+                   'the preemption bound of the strand and pool harnesses (C07, C08) with counted jobs, including Stop/HardStop racing with Submit',
+        budget=dict(quick=300, thorough=2400),
+        runs=[seq('pipeline', 'seq17', quick=dict(shards=16, args=['--mode', 'exec', '--prop', 'C05']),
+                  thorough=dict(shards=16, args=['--mode', 'exec', '--prop', 'C05'])),
+              seq('pipeline', 'seq17', quick=dict(shards=16, args=['--mode', 'lazy', '--prop', 'C05']),
+                  thorough=dict(shards=16, args=['--mode', 'lazy', '--prop', 'C05'])),
+              mc('strand', 'mc-asan', quick=dict(P=2, S=1, cells='stop=(stop|hard)'), thorough=dict(P=3, S=1)),
+              mc('pool', 'mc-asan', quick=dict(P=2, cells='k=1,j=[12]|k=2,j=1,resub=0'), thorough=dict(P=3))],
+        assumptions=['sequential part: C++17 / FAULT=OFF instantiation with instrumented inline executors; '
+                     'concurrent part: FIBER instantiation, sequentially consistent executions, preemption bounds of C07/C08',
+                     'co_await On(e) is covered in C13'],
+        technique='bounded exhaustive enumeration of programs x rejection points against a reference model, plus exhaustive preemption-bounded schedule enumeration',
+    ),
+    'C12': dict(
+        title='A Task does nothing until started, then behaves like the same eager pipeline',
+        level_text='every lazy pipeline program of length <= 2 (thorough: 3 reduced) over the full step alphabet x 5 lazy sources '
+                   '(MakeTask value/error, Schedule, LazyContract fulfilled inside / after start) x 6 ways of starting or abandoning '
+                   '(ToFuture().Get, ToFuture(e).Get, Get, Detach, Detach(e), never started) plus inner Tasks returned from continuations '
+                   '(MakeTask / Schedule / LazyContract heads): nothing runs or is submitted before the start, afterwards the invoked '
+                   'steps, their arguments and the final Result equal the reference interpreter AND the eager twin of the same program; '
+                   'ledger of functor captures and allocation balance are empty at the end',
+        budget=dict(quick=200, thorough=1800),
+        runs=[seq('pipeline', 'seq17', quick=dict(shards=16, args=['--mode', 'lazy', '--prop', 'C12']),
+                  thorough=dict(shards=16, args=['--mode', 'lazy', '--prop', 'C12']))],
+        assumptions=['C++17 / FAULT=OFF instantiation (plus ASan), single-threaded, instrumented inline executors',
+                     'starts by co_await / Await and coroutine Task heads are covered in C13',
+                     'pipeline length bound as stated'],
+        technique='bounded exhaustive enumeration of operation sequences against a reference model and an eager twin (differential)',
+    ),
+    'C20': dict(
+        title='Allocations: one per pipeline step, constant per combinator, none to wait',
+        level_text='every pipeline program of the C02/C12 enumeration (length <= 2, eager and lazy) with operator new counted around '
+                   'each source, attach and finish call (callback bodies bracketed out): at most 1 per step, 0 for Get/Detach()/start; '
+                   'WhenAll / WhenAny / Join x 3 fail policies x pending/ready inputs x n = 1..8: the same number of blocks for every '
+                   'n >= 2 and at most 4; Wait / WaitFor / WaitUntil (iterator n = 1..8, variadic n = 1,2,4; ready and timing out), '
+                   'Future::Get and Strand::Submit of an existing job: 0',
+        budget=dict(quick=200, thorough=1200),
+        runs=[seq('pipeline', 'seq17-plain', quick=dict(shards=16, args=['--mode', 'alloc', '--prop', 'C20']),
+                  thorough=dict(shards=16, args=['--mode', 'alloc', '--prop', 'C20'])),
+              seq('alloc', 'seq17-plain')],
+        assumptions=['C++17 / FAULT=OFF / NDEBUG / -O2 instantiation as shipped by the baseline, no sanitizer (allocation counts of the real build)',
+                     'blocks are counted, not bytes; co_await allocations are covered with the coroutine harnesses'],
+        technique='bounded exhaustive enumeration of programs and input counts with an allocation ledger',
     ),
     'C06': dict(
         title='SharedFuture: every observer sees the one value once, never before it exists',
